@@ -132,7 +132,16 @@ def _slice_spec(has_start, has_stop):
     def mk(I, name):
         return slice(T.int.make(I, name + '.start') if has_start else None,
                      T.int.make(I, name + '.stop') if has_stop else None, None)
-    return T.custom(f"slice({'int' if has_start else 'None'}:{'int' if has_stop else 'None'})", mk)
+    sp = T.custom(f"slice({'int' if has_start else 'None'}:{'int' if has_stop else 'None'})", mk)
+    sp.sampler = lambda rng, ctx: _NativeSlice(rng.randint(-9, 9) if has_start else None, rng.randint(-9, 9) if has_stop else None)
+    return sp
+
+
+class _NativeSlice(dict):
+    """JSON form of a slice for the native sampler (pyvc.runtime.from_json recipe '__slice__')"""
+
+    def __init__(self, a, b):
+        super().__init__({'__class__': '__slice__', 'fields': {'start': a, 'stop': b}})
 
 
 import os as _os
@@ -142,8 +151,8 @@ BOUND = T.one_of(T.none, T.int)
 
 # ---- unbounded tier: chunk lists of ANY length (symbolic n); loops carry inductive invariants; the spec folds
 # offset/total are prefix sums with proved monotonicity lemma (pyvc/folds.py)
-from pyvc import folds as _folds
-import z3 as _z3
+from pyvc.speclib import solver_modules as _solver_modules
+_z3, _folds, _parse, _Env = _solver_modules()
 _OFFSET = _folds.PrefixSum('offset', lambda V, zi: _z3.Length(V.field('text', zi)))
 _PLAIN = _folds.PrefixConcat('plain', lambda V, zi: V.field('text', zi), _OFFSET)
 FOLD_MODELS = {'offset': _folds.prefix_model(_OFFSET), 'total': _folds.whole_model(_OFFSET),
@@ -260,8 +269,6 @@ TEXT_MODELS = {k: FOLD_MODELS[k] for k in ('offset', 'total', 'plain', 'plain_up
 COLOR_MODELS = dict(TEXT_MODELS, color_at=FOLD_MODELS['color_at'], chunk_index=FOLD_MODELS['chunk_index'])
 
 
-from pyvc.verify import parse_expr as _parse      # noqa
-from pyvc.interp import Env as _Env               # noqa
 
 
 def pad_like_str(shown, n, fill, align, width):
@@ -352,6 +359,11 @@ def lemma_pointwise(a, b, q):
         assert offset(b, ka) <= q < offset(b, ka + 1)       # the same chunk of `b` holds position q
         assert color_at(a, q) == color_at(b, q)
     return plain(a) == plain(b) and total(a) == total(b)
+
+
+_FORMAT_SPEC = T.derived('fill + align + str(width) + kind',
+                         lambda I, a: I.eval(_parse('fill + align + str(width) + kind'), _Env(dict(a), pyglobals={'str': str})))
+_FORMAT_SPEC.native = lambda a: a['fill'] + a['align'] + str(a['width']) + a['kind']
 
 
 def ANYCHUNKS():
@@ -599,9 +611,7 @@ UNBOUNDED_CONTRACTS = [
                      'align': T.one_of(T.const(''), T.const('<'), T.const('>'), T.const('^')),
                      'width': T.one_of(T.const(''), *[T.const(w) for w in (0, 1, 2, 7, 10, 25)]),
                      'kind': T.one_of(T.const(''), T.const('s')),
-                     'format_spec': T.derived('fill + align + str(width) + kind',
-                                              lambda I, a: I.eval(_parse('fill + align + str(width) + kind'),
-                                                                  _Env(dict(a), pyglobals={'str': str})))},
+                     'format_spec': _FORMAT_SPEC},
              requires=["wf_any(self)", "fill == '' or align != ''"],
              ensures={'padding': "result == pad_like_str(rendered(self.chunks), self.scrlen, fill, align, width)"},
              symlist_models=FOLD_MODELS, raises={}, modifies=[]),
@@ -826,6 +836,7 @@ BOUNDED_SYMBOLIC = {'CHText.__format__/any_length': "widths from {none, 0, 1, 2,
                     'CHText.__eq__/text': 2, 'CHText.__eq__/str': 3, 'CHText.fixed_len': 2, 'CHText._get_chunk_pos': 3, 'CHText.__getitem__/index': 3, 'CHText.__getitem__/slice': 3}
 _IADD_ANY = ['CHText.__iadd__/chunk/any_length', 'CHText.__iadd__/str/any_length', 'CHText.__iadd__/text/any_length']
 _IADD_ALL = _IADD_ANY + ['CHText.__iadd__/list/any_length']
+RECIPES = {'__slice__': lambda f: slice(f['start'], f['stop'])}
 USES = {'CHText.__getitem__/index/any_length': ['CHText._get_chunk_pos/any_length'],
         'CHText.__getitem__/slice/any_length': ['CHText._get_chunk_pos/any_length', 'CHText.__init__/chunks/any_length',
                                                 'CHText.__init__/any_length'],
@@ -843,6 +854,7 @@ USES = {'CHText.__getitem__/index/any_length': ['CHText._get_chunk_pos/any_lengt
         'CHText.__radd__/any_length': ['CHText.__init__/any_length'],
         'CHText.join/any_length': _IADD_ANY + ['CHText.__init__/any_length']}
 ASSUMED_LIBRARY = []
+NATIVE_SAMPLING = {'select': 'any_length', 'n': 150}
 CANARIES = [
     {'name': 'anylen_eq_ignores_colour', 'module': M, 'function': 'CHText.__eq__', 'verify': 'CHText.__eq__/text/any_length',
      'old': 'return all(p0 == p1 for p0, p1 in zip(self.chunks, other.chunks))',
